@@ -574,6 +574,7 @@ func (a *Emitter) EmitBytes(b []byte) {
 			s.Write([]byte{'$', hextable[(v>>4)&0xF], hextable[v&0xF]})
 			if i&15 == 15 {
 				cl.ins = s.String()
+				cl.byteCount = 16
 				a.lines = append(a.lines, cl)
 				s.Reset()
 				s.WriteString("db ")
@@ -587,6 +588,7 @@ func (a *Emitter) EmitBytes(b []byte) {
 
 		if s.Len() > len("db ") {
 			cl.ins = s.String()
+			cl.byteCount = blen & 15
 			a.lines = append(a.lines, cl)
 		}
 	}
